@@ -35,6 +35,9 @@ struct Ctl {
     release: HashMap<MerkleHash, bool>,
     started: Vec<MerkleHash>,
     returned: Vec<(MerkleHash, bool)>,
+    /// the store's own ledger: byte count each successful put returned, (length, accepted?) of every upload_shard call
+    put_sizes: HashMap<MerkleHash, usize>,
+    shard_log: Vec<(usize, bool)>,
     shard_calls: usize,
     fail_shard: Option<usize>,
     order: Vec<String>,
@@ -61,6 +64,7 @@ impl UploadClient for FaultClient {
         let (m, cv) = &*self.ctl;
         let mut g = m.lock().unwrap();
         g.returned.push((h, r.is_ok()));
+        if let Ok(n) = &r { g.put_sizes.insert(h, *n); }
         g.order.push(format!("put-end {} {}", h.hex(), r.is_ok()));
         cv.notify_all();
         r
@@ -75,8 +79,10 @@ impl ReconstructionClient for FaultClient {
 impl RegistrationClient for FaultClient {
     async fn upload_shard(&self, prefix: &str, hash: &MerkleHash, force: bool, data: &[u8], salt: &[u8; 32]) -> Result<bool, CasClientError> {
         let fail = { let (m, _) = &*self.ctl; let mut g = m.lock().unwrap(); let k = g.shard_calls; g.shard_calls += 1; g.order.push("shard-start".into()); g.fail_shard == Some(k) };
-        if fail { return Err(CasClientError::Other("injected shard upload failure".into())); }
-        self.inner.upload_shard(prefix, hash, force, data, salt).await
+        if fail { self.ctl.0.lock().unwrap().shard_log.push((data.len(), false)); return Err(CasClientError::Other("injected shard upload failure".into())); }
+        let r = self.inner.upload_shard(prefix, hash, force, data, salt).await;
+        self.ctl.0.lock().unwrap().shard_log.push((data.len(), r.is_ok()));
+        r
     }
 }
 #[async_trait::async_trait]
@@ -138,6 +144,7 @@ pub fn run_child(ctx: &mut Ctx) {
         let nfiles = rng.range(1, 3) as usize;
         let files: Vec<Vec<u8>> = (0..nfiles).map(|_| { let n = rng.range(1, 14 * target as u64) as usize; rng.bytes(n) }).collect();
         let mut trace: Vec<String> = Vec::new();
+        let mut btrace: Vec<String> = Vec::new();             // the same history for `up.bytes`; "R<id>" = registration that spawned task <id>
         let mut task_hash: Vec<MerkleHash> = Vec::new();      // spawn order -> xorb hash
         let mut released: Vec<bool> = Vec::new();
         let mut api_errors = 0usize;
@@ -149,14 +156,14 @@ pub fn run_child(ctx: &mut Ctx) {
             let evs = take_events();
             let regs: Vec<MerkleHash> = evs.iter().filter(|e| e.0 == "session.add_cas_block").map(|e| MerkleHash::from_hex(e.1.split(' ').next().unwrap()).unwrap()).collect();
             let nregs = regs.len();
-            for (k, h) in regs.into_iter().enumerate() { trace.push("r1".into()); if $ok || k + 1 < nregs { task_hash.push(h); released.push(false); } }
+            for (k, h) in regs.into_iter().enumerate() { trace.push("r1".into()); if $ok || k + 1 < nregs { btrace.push(format!("R{}", task_hash.len())); task_hash.push(h); released.push(false); } else { btrace.push("r1:0".into()); } }
             if !$ok { api_errors += 1; any_api_error = true; }
             // release a random subset of the pending puts, in random order
             let mut pending: Vec<usize> = (0..task_hash.len()).filter(|i| !released[*i]).collect();
             while !pending.is_empty() && rng.chance(2, 3) {
                 let k = rng.below(pending.len() as u64) as usize; let i = pending.remove(k);
                 let ok = !fail_task.contains(&i);
-                release(&ctl, task_hash[i], ok, 3000); released[i] = true; trace.push(format!("c{}:{}", i, ok as u8));
+                release(&ctl, task_hash[i], ok, 3000); released[i] = true; trace.push(format!("c{}:{}", i, ok as u8)); btrace.push(format!("c{}:{}", i, ok as u8));
             }
         }}; }
         'files: for (fi, data) in files.iter().enumerate() {
@@ -207,6 +214,23 @@ pub fn run_child(ctx: &mut Ctx) {
         let shard_calls_n = g.shard_calls;
         trace.push(format!("f{}:{}:{}", last_ne as u8, if rest.is_empty() { "-".to_string() } else { rest.clone() }, (!shard_failed) as u8));
         if fin.is_err() { api_errors += 1; any_api_error = true; }
+        // ---- C14, upload-byte clause: the same history with byte counts (store ledger = what each successful put returned, the
+        // length of every shard the store accepted), replayed through the byte-accounting layer of the model
+        let size_of = |h: &MerkleHash| g.put_sizes.get(h).copied().unwrap_or(0);
+        let last_sz = if last_ne { size_of(task_hash.last().unwrap()) } else { 0 };
+        let shards_tok = if g.shard_log.is_empty() { "-".to_string() } else { g.shard_log.iter().map(|(l, ok)| format!("{}.{}", l, *ok as u8)).collect::<Vec<_>>().join("/") };
+        let mut bt: Vec<String> = btrace.iter().map(|t| if let Some(id) = t.strip_prefix('R') { format!("r1:{}", size_of(&task_hash[id.parse::<usize>().unwrap()])) } else { t.clone() }).collect();
+        bt.push(format!("f{}:{}:{}:{}", last_ne as u8, last_sz, if rest.is_empty() { "-".to_string() } else { rest.clone() }, shards_tok));
+        let impl_bytes = match &fin { Ok(m) => format!("final=ok xorb={} shard={}", m.xorb_bytes_uploaded, m.shard_bytes_uploaded), Err(_) => "final=err xorb=none shard=none".to_string() };
+        let breplay = format!("{{\"suite\":\"session_faults\",\"seed\":{},\"scenario\":{},\"trace\":\"{}\"}}", ctx.seed, sc, bt.join(","));
+        if let Ok(m) = &fin {
+            let store_xorb: usize = g.put_sizes.values().sum();
+            let store_shard: usize = g.shard_log.iter().filter(|x| x.1).map(|x| x.0).sum();
+            if m.xorb_bytes_uploaded != store_xorb { ctx.fail("C14", "xorb-bytes-reported-differ-from-store", format!("finalize reported xorb_bytes_uploaded = {} but the store accepted {} bytes in {} puts (some still running when finalize was called: {})", m.xorb_bytes_uploaded, store_xorb, g.put_sizes.len(), pending.len() + last_ne as usize), breplay.clone()); }
+            if m.shard_bytes_uploaded != store_shard { ctx.fail("C14", "shard-bytes-reported-differ-from-store", format!("finalize reported shard_bytes_uploaded = {} but the store accepted {} bytes in {} shards", m.shard_bytes_uploaded, store_shard, g.shard_log.len()), breplay.clone()); }
+            if m.total_bytes_uploaded != m.xorb_bytes_uploaded + m.shard_bytes_uploaded { ctx.fail("C14", "total-bytes-uploaded-not-sum", format!("total_bytes_uploaded = {} != {} + {}", m.total_bytes_uploaded, m.xorb_bytes_uploaded, m.shard_bytes_uploaded), breplay.clone()); }
+            ctx.stat(if pending.len() + last_ne as usize > 0 { "byte_sessions_ok_with_puts_joined_by_finalize" } else { "byte_sessions_ok_all_puts_done_before_finalize" });
+        }
         let replay = format!("{{\"suite\":\"session_faults\",\"seed\":{},\"scenario\":{},\"trace\":\"{}\"}}", ctx.seed, sc, trace.join(","));
 
         // ---- monitors on the implementation
@@ -241,6 +265,7 @@ pub fn run_child(ctx: &mut Ctx) {
         drop(g);
         let fin_s = if fin.is_ok() { "ok" } else { "err" };
         ctx.op(&format!("up.obs ev={}", trace.join(",")), &format!("final={fin_s} apiErrors={api_errors} shards={} tasks={}", shards_started as u8, if fin.is_ok() { tasks } else { "*".to_string() }));
+        ctx.op(&format!("up.bytes ev={}", bt.join(",")), &impl_bytes);
         ctx.stat(if any_put_failed { "scenarios_with_put_failure" } else { "scenarios_without_put_failure" });
         if shard_failed { ctx.stat("scenarios_with_shard_failure"); }
         ctx.stat(&format!("shard_upload_calls_{}", shard_calls_n.min(9)));
